@@ -439,7 +439,18 @@ class World:
             net = simnet.SimNet(op["net"], self.stats)
             net.install_urlopen()
             try:
-                if op.get("resolve"):
+                if op.get("missing"):
+                    from cssutils.script import csscombine
+
+                    def f():
+                        # a call that fails: a file that does not exist / bytes that are not in the source encoding
+                        if op["missing"] == "file":
+                            return csscombine(path=os.path.join(self.scratch(), "no-such-file.css"))
+                        path = os.path.join(self.scratch(), "bad.css")
+                        with open(path, "wb") as fh:
+                            fh.write(b"a { content: '\xff\xfe\xfa' }")
+                        return csscombine(path=path, sourceencoding="utf-8")
+                elif op.get("resolve"):
                     def f():
                         s = cu.CSSParser(fetcher=net.fetch).parseString(op["text"], href="http://h/root.css")
                         return cu.resolveImports(s)
@@ -456,7 +467,13 @@ class World:
             name = "simprof"
             kk, v = lib.call(cu.profile.addProfile, name, {"-sim-x": "{num}|foo", "color": "bar"}, {"num": "[0-9]"} if op.get("macros") else None)
             lib.call(cu.profile.validate, "-sim-x", "1")
-            lib.call(cu.parseString, "a { -sim-x: 1; color: bar }")
+            k2, sh = lib.call(cu.parseString, "a { -sim-x: 1; color: bar }")
+            if kk == "ok" and k2 == "ok" and len(sh.cssRules):
+                # no default profiles are set: a value a registered profile accepts is valid, whatever was parsed before
+                p_ = sh.cssRules[0].style.getProperty("-sim-x")
+                self.stats["oracle"] += 1
+                if p_ is not None and p_.valid is not True:
+                    raise Viol("result_depends_on_history", "profile-added-after-parses", f"'-sim-x: 1' is not valid although the profile defining it was just registered and no default profiles are set (valid={p_.valid})")
             lib.call(cu.profile.removeProfile, name)
             self.stats["op:profile_pair:ok"] += 1
             return "ok"
@@ -621,7 +638,7 @@ def gen_op(r, w, i):
         base.update(text=G.sheet(r))
         return base
     if k == "combine":
-        base.update(net=_net(r, cfg), text='@import "a.css" print; @import "b.css"; ' + G.sheet(r, n=1), resolve=r.random() < 0.5, minify=r.random() < 0.5, target=r.choice([None, "utf-8", "ascii"]))
+        base.update(net=_net(r, cfg), text='@import "a.css" print; @import "b.css"; ' + G.sheet(r, n=1), resolve=r.random() < 0.5, minify=r.random() < 0.5, target=r.choice([None, "utf-8", "ascii"]), missing=r.choice([None, None, None, "file", "bytes"]))
         return base
     if k == "profile_pair":
         base.update(macros=r.random() < 0.5)
